@@ -14,6 +14,7 @@ import (
 	"sort"
 	"strings"
 	"sync"
+	"time"
 
 	"golang.org/x/tools/go/ssa"
 )
@@ -39,7 +40,22 @@ type Slice struct {
 }
 
 type Struct struct{ F []Value }
-type Array struct{ E []Value }
+
+// Array: E holds the elements; O, when present, is an ordered overlay of writes at symbolic
+// (or, once an overlay exists, any) indices for non-scalar element types (radix-tree child
+// tables): a load walks it newest-first asking "same index?" (hit/miss), so one tree descent
+// forks linearly in the depth instead of by the fan-out.
+type Array struct {
+	E []Value
+	O *overlay
+}
+
+type symWrite struct {
+	Idx Int
+	Val Value
+}
+
+type overlay struct{ w []symWrite }
 
 type MapEntry struct{ K, V Value }
 type MapObj struct {
@@ -145,6 +161,8 @@ type Exec struct {
 	unkFeas  int
 	curFn    []*ssa.Function
 	tokLitEq map[string]Bool
+	tokOvfAx map[int]bool
+	assumeN  int
 	ufs      map[string]bool
 	stubs    map[string]bool
 	timeoutMs int
@@ -154,9 +172,11 @@ type Exec struct {
 	concrete map[string]string // translator-validation mode: concrete inputs
 	traceOut []string
 	inInit   bool
+	deadline time.Time
 }
 
 var dumpCtr int
+var regionLog = os.Getenv("SYMGO_REGION") != ""
 
 const nameThreshold = 120
 
@@ -546,7 +566,8 @@ func synthToken(t int, m map[string]string) string {
 	ovf := m[a[1]] == "true"
 	canon := m[a[2]] == "true"
 	val, _ := parseBV(m[a[3]])
-	id := strings.NewReplacer("(", "", ")", "", " ", "", "-", "m").Replace(m[a[4]])
+	idv, _ := parseBV(m[a[4]])
+	id := fmt.Sprintf("%x", idv)
 	empty := m[a[5]] == "true"
 	switch {
 	case empty:
@@ -583,7 +604,11 @@ func copyVal(v Value) Value {
 		for i := range el {
 			el[i] = copyVal(x.E[i])
 		}
-		return Array{el}
+		var o *overlay
+		if x.O != nil {
+			o = &overlay{w: append([]symWrite(nil), x.O.w...)}
+		}
+		return Array{el, o}
 	}
 	return v
 }
@@ -655,7 +680,7 @@ func (e *Exec) zero(t types.Type) Value {
 		for i := range el {
 			el[i] = e.zero(u.Elem())
 		}
-		return Array{el}
+		return Array{E: el}
 	case *types.Interface:
 		return Iface{}
 	case *types.Signature:
@@ -723,6 +748,15 @@ func (e *Exec) loadPath(v Value, path []int) Value {
 				e.unsupported("internal: array path out of range")
 			}
 			v = x.E[i]
+			if x.O != nil {
+				for k := len(x.O.w) - 1; k >= 0; k-- {
+					w := x.O.w[k]
+					if e.decide(iCmp("==", w.Idx, mkInt(w.Idx.W, w.Idx.Signed, uint64(i)))) {
+						v = w.Val
+						break
+					}
+				}
+			}
 		default:
 			e.unsupported("internal: loadPath through %T", v)
 		}
@@ -739,6 +773,13 @@ func storePath(root Value, path []int, nv Value) Value {
 		x.F[path[0]] = storePath(x.F[path[0]], path[1:], nv)
 		return x
 	case Array:
+		if x.O != nil {
+			if len(path) != 1 {
+				panic(pathEnd{"unsupported", "store into an aggregate element of an array with symbolic-index writes"})
+			}
+			x.O.w = append(x.O.w, symWrite{Idx: mkI64(int64(path[0])), Val: nv})
+			return x
+		}
 		x.E[path[0]] = storePath(x.E[path[0]], path[1:], nv)
 		return x
 	}
@@ -870,6 +911,7 @@ func (e *Exec) call(fn *ssa.Function, args []Value, binds []Value) Value {
 
 func (e *Exec) runBlocks(fr *Frame) Value {
 	var prev *ssa.BasicBlock
+	prevK := 0
 	b := fr.fn.Blocks[0]
 	skipPhis := false
 	for {
@@ -883,13 +925,7 @@ func (e *Exec) runBlocks(fr *Frame) Value {
 				if !ok {
 					break
 				}
-				idx := -1
-				for i, p := range b.Preds {
-					if p == prev {
-						idx = i
-						break
-					}
-				}
+				idx := predIndex(prev, b, prevK)
 				phiVals = append(phiVals, e.get(fr, ph.Edges[idx]))
 				phis = append(phis, ph)
 			}
@@ -912,16 +948,19 @@ func (e *Exec) runBlocks(fr *Frame) Value {
 			if e.instrs > e.budget {
 				panic(pathEnd{"budget", "instruction budget exceeded"})
 			}
+			if e.instrs&0xfff == 0 && !e.deadline.IsZero() && time.Now().After(e.deadline) {
+				panic(pathEnd{"budget", "time budget exceeded"})
+			}
 			switch i := ins.(type) {
 			case *ssa.Jump:
-				next = b.Succs[0]
+				next, prevK = b.Succs[0], 0
 			case *ssa.If:
 				c := e.get(fr, i.Cond).(Bool)
 				if c.IsC {
 					if c.C {
-						next = b.Succs[0]
+						next, prevK = b.Succs[0], 0
 					} else {
-						next = b.Succs[1]
+						next, prevK = b.Succs[1], 1
 					}
 				} else if j, rv, isRet, ok := e.tryRegion(fr, b, c); ok {
 					if isRet {
@@ -934,9 +973,9 @@ func (e *Exec) runBlocks(fr *Frame) Value {
 					var tk bool
 					tk = e.decide(c)
 					if tk {
-						next = b.Succs[0]
+						next, prevK = b.Succs[0], 0
 					} else {
-						next = b.Succs[1]
+						next, prevK = b.Succs[1], 1
 					}
 					fr.visits[next]++
 					if fr.visits[next] > e.unwind {
@@ -1090,74 +1129,173 @@ func (e *Exec) pureInstr(ins ssa.Instruction) bool {
 	return false
 }
 
-type regionLeaf struct {
+type regionEdge struct {
 	from  *ssa.BasicBlock
+	k     int // successor index in from.Succs
 	guard Bool
-	ret   []Value
 }
 
-// tryRegion: the If at the end of b (symbolic condition c) heads an acyclic region of pure
-// single-predecessor blocks whose leaves are either all the same join block or all returns.
-// The region is evaluated once, obligations inside it are guarded, and the join's phis (or
-// the function result) become ite terms.
+// predIndex: index in to.Preds of the edge from.Succs[k] -> to (duplicates are ordered as in Succs).
+func predIndex(from, to *ssa.BasicBlock, k int) int {
+	nth := 0
+	for i := 0; i < k; i++ {
+		if from.Succs[i] == to {
+			nth++
+		}
+	}
+	for i, p := range to.Preds {
+		if p == from {
+			if nth == 0 {
+				return i
+			}
+			nth--
+		}
+	}
+	return -1
+}
+
+// tryRegion if-converts the acyclic single-entry region headed by the If at the end of b
+// (symbolic condition c): the blocks admitted are pure, all their predecessors lie in the
+// region, and the region leaves either through one join block or only through returns.
+// Blocks are evaluated once, in topological order, under their path guard; phis become ite.
 func (e *Exec) tryRegion(fr *Frame, b *ssa.BasicBlock, c Bool) (join *ssa.BasicBlock, ret Value, isRet, ok bool) {
-	count := 0
-	nRet, nJoin := 0, 0
-	var walk func(x *ssa.BasicBlock) bool
-	walk = func(x *ssa.BasicBlock) bool {
-		count++
-		if count > 64 {
+	inR := map[*ssa.BasicBlock]bool{}
+	var order []*ssa.BasicBlock
+	admissible := func(x *ssa.BasicBlock) bool {
+		if x == b || inR[x] || len(x.Instrs) == 0 {
 			return false
 		}
-		isRegion := len(x.Preds) == 1 && x != b
-		if isRegion {
-			for _, ins := range x.Instrs[:len(x.Instrs)-1] {
-				if _, isPhi := ins.(*ssa.Phi); isPhi {
-					continue
-				}
-				if !e.pureInstr(ins) {
-					isRegion = false
-					break
-				}
-			}
-			switch x.Instrs[len(x.Instrs)-1].(type) {
-			case *ssa.Jump, *ssa.If, *ssa.Return:
-			default:
-				isRegion = false
-			}
-		}
-		if !isRegion {
-			if join == nil {
-				join = x
-			}
-			nJoin++
-			return join == x
-		}
-		if _, r := x.Instrs[len(x.Instrs)-1].(*ssa.Return); r {
-			nRet++
-			return true
-		}
-		for _, s := range x.Succs {
-			if !walk(s) {
+		for _, p := range x.Preds {
+			if p != b && !inR[p] {
 				return false
 			}
 		}
-		return true
+		for _, ins := range x.Instrs[:len(x.Instrs)-1] {
+			if _, isPhi := ins.(*ssa.Phi); isPhi {
+				continue
+			}
+			if !e.pureInstr(ins) {
+				return false
+			}
+		}
+		switch x.Instrs[len(x.Instrs)-1].(type) {
+		case *ssa.Jump, *ssa.If, *ssa.Return:
+			return true
+		}
+		return false
 	}
-	if !walk(b.Succs[0]) || !walk(b.Succs[1]) {
+	for changed := true; changed && len(order) < 64; {
+		changed = false
+		cands := append([]*ssa.BasicBlock{}, b.Succs...)
+		for _, r := range order {
+			cands = append(cands, r.Succs...)
+		}
+		for _, x := range cands {
+			if admissible(x) {
+				inR[x] = true
+				order = append(order, x)
+				changed = true
+			}
+		}
+	}
+	if len(order) == 0 || len(order) >= 64 {
 		return nil, nil, false, false
 	}
-	if nRet > 0 && nJoin > 0 {
+	// exits
+	nRet := 0
+	check := func(x *ssa.BasicBlock) bool {
+		if inR[x] {
+			return true
+		}
+		if join == nil {
+			join = x
+		}
+		return join == x
+	}
+	for _, s := range b.Succs {
+		if !check(s) {
+			return nil, nil, false, false
+		}
+	}
+	for _, r := range order {
+		if _, isR := r.Instrs[len(r.Instrs)-1].(*ssa.Return); isR {
+			nRet++
+		}
+		for _, s := range r.Succs {
+			if !check(s) {
+				if regionLog {
+					fmt.Fprintf(os.Stderr, "  region: two exits in %s from block %d\n", fr.fn.Name(), b.Index)
+				}
+				return nil, nil, false, false
+			}
+		}
+	}
+	if nRet > 0 && join != nil {
+		if regionLog {
+			fmt.Fprintf(os.Stderr, "  region: mixed return/join in %s block %d\n", fr.fn.Name(), b.Index)
+		}
 		return nil, nil, false, false
 	}
 	outer := e.guard
 	defer func() { e.guard = outer }()
-	var leaves []regionLeaf
-	var eval func(x, from *ssa.BasicBlock, g Bool)
-	eval = func(x, from *ssa.BasicBlock, g Bool) {
-		if x == join {
-			leaves = append(leaves, regionLeaf{from: from, guard: g})
-			return
+	incoming := map[*ssa.BasicBlock][]regionEdge{}
+	addEdge := func(from *ssa.BasicBlock, k int, g Bool) {
+		to := from.Succs[k]
+		incoming[to] = append(incoming[to], regionEdge{from, k, g})
+	}
+	addEdge(b, 0, c)
+	addEdge(b, 1, bNot(c))
+	mergePhis := func(x *ssa.BasicBlock) bool {
+		eds := incoming[x]
+		var phis []*ssa.Phi
+		var vals []Value
+		for _, ins := range x.Instrs {
+			ph, isPhi := ins.(*ssa.Phi)
+			if !isPhi {
+				break
+			}
+			var acc Value
+			for k := len(eds) - 1; k >= 0; k-- {
+				ed := eds[k]
+				v := e.get(fr, ph.Edges[predIndex(ed.from, x, ed.k)])
+				if k == len(eds)-1 {
+					acc = v
+					continue
+				}
+				m, mok := e.merge(ed.guard, v, acc)
+				if !mok {
+					if regionLog {
+						fmt.Fprintf(os.Stderr, "  region: cannot merge %T with %T at phi %s in %s\n", v, acc, ph.Name(), fr.fn.Name())
+					}
+					return false
+				}
+				acc = m
+			}
+			phis = append(phis, ph)
+			vals = append(vals, acc)
+		}
+		for i, ph := range phis {
+			fr.env[ph] = vals[i]
+		}
+		return true
+	}
+	type retLeaf struct {
+		guard Bool
+		vals  []Value
+	}
+	var rets []retLeaf
+	for _, x := range order {
+		eds := incoming[x]
+		if len(eds) == 0 {
+			continue // unreachable within the region
+		}
+		g := eds[0].guard
+		for _, ed := range eds[1:] {
+			g = bOr(g, ed.guard)
+		}
+		g = e.nmB(g)
+		if !mergePhis(x) {
+			return nil, nil, false, false
 		}
 		full := g
 		if outer != nil {
@@ -1165,44 +1303,47 @@ func (e *Exec) tryRegion(fr *Frame, b *ssa.BasicBlock, c Bool) (join *ssa.BasicB
 		}
 		e.guard = &full
 		for _, ins := range x.Instrs[:len(x.Instrs)-1] {
-			e.instrs++
-			if ph, isPhi := ins.(*ssa.Phi); isPhi {
-				fr.env[ph] = e.get(fr, ph.Edges[0])
+			if _, isPhi := ins.(*ssa.Phi); isPhi {
 				continue
 			}
+			e.instrs++
 			e.step(fr, ins)
 		}
 		switch t := x.Instrs[len(x.Instrs)-1].(type) {
 		case *ssa.Jump:
-			eval(x.Succs[0], x, g)
+			addEdge(x, 0, g)
 		case *ssa.If:
 			cc := e.get(fr, t.Cond).(Bool)
-			eval(x.Succs[0], x, e.nmB(bAnd(g, cc)))
-			eval(x.Succs[1], x, e.nmB(bAnd(g, bNot(cc))))
+			addEdge(x, 0, e.nmB(bAnd(g, cc)))
+			addEdge(x, 1, e.nmB(bAnd(g, bNot(cc))))
 		case *ssa.Return:
-			lf := regionLeaf{from: x, guard: g}
+			lf := retLeaf{guard: g}
 			for _, r := range t.Results {
-				lf.ret = append(lf.ret, e.get(fr, r))
+				lf.vals = append(lf.vals, e.get(fr, r))
 			}
-			leaves = append(leaves, lf)
+			rets = append(rets, lf)
 		}
 	}
-	eval(b.Succs[0], b, c)
-	eval(b.Succs[1], b, bNot(c))
 	e.guard = outer
 	if nRet > 0 {
-		nres := len(leaves[0].ret)
+		if len(rets) == 0 {
+			return nil, nil, false, false
+		}
+		nres := len(rets[0].vals)
 		merged := make([]Value, nres)
 		for i := 0; i < nres; i++ {
 			var acc Value
-			for k := len(leaves) - 1; k >= 0; k-- {
-				v := leaves[k].ret[i]
-				if k == len(leaves)-1 {
+			for k := len(rets) - 1; k >= 0; k-- {
+				v := rets[k].vals[i]
+				if k == len(rets)-1 {
 					acc = v
 					continue
 				}
-				m, mok := e.merge(leaves[k].guard, v, acc)
+				m, mok := e.merge(rets[k].guard, v, acc)
 				if !mok {
+					if regionLog {
+						fmt.Fprintf(os.Stderr, "  region: cannot merge return %T with %T in %s\n", v, acc, fr.fn.Name())
+					}
 					return nil, nil, false, false
 				}
 				acc = m
@@ -1217,38 +1358,8 @@ func (e *Exec) tryRegion(fr *Frame, b *ssa.BasicBlock, c Bool) (join *ssa.BasicB
 		}
 		return nil, Tuple(merged), true, true
 	}
-	var phis []*ssa.Phi
-	var vals []Value
-	for _, ins := range join.Instrs {
-		ph, isPhi := ins.(*ssa.Phi)
-		if !isPhi {
-			break
-		}
-		var acc Value
-		for k := len(leaves) - 1; k >= 0; k-- {
-			ed := leaves[k]
-			idx := -1
-			for i, p := range join.Preds {
-				if p == ed.from {
-					idx = i
-				}
-			}
-			v := e.get(fr, ph.Edges[idx])
-			if k == len(leaves)-1 {
-				acc = v
-				continue
-			}
-			m, mok := e.merge(ed.guard, v, acc)
-			if !mok {
-				return nil, nil, false, false
-			}
-			acc = m
-		}
-		phis = append(phis, ph)
-		vals = append(vals, acc)
-	}
-	for i, ph := range phis {
-		fr.env[ph] = vals[i]
+	if join == nil || !mergePhis(join) {
+		return nil, nil, false, false
 	}
 	return join, nil, false, true
 }
@@ -1469,7 +1580,7 @@ func (e *Exec) step(fr *Frame, ins ssa.Instruction) {
 		for k := range el {
 			el[k] = e.zero(et)
 		}
-		fr.env[i] = Slice{Arr: e.newObj(Array{el}, "make in "+fr.fn.Name()), Off: 0, Len: n, Cap: c}
+		fr.env[i] = Slice{Arr: e.newObj(Array{E: el}, "make in "+fr.fn.Name()), Off: 0, Len: n, Cap: c}
 	case *ssa.FieldAddr:
 		p := e.get(fr, i.X).(Ptr)
 		if p.Obj == nil {
@@ -1543,16 +1654,33 @@ func (e *Exec) storeInstr(fr *Frame, i *ssa.Store) {
 
 // symElemPtr is the address of slice/array element at a symbolic index (scalars only).
 type symElemPtr struct {
-	Obj  *Object
-	Path []int
-	Off  int
-	Len  int
-	Idx  Int
+	Obj     *Object
+	Path    []int
+	Off     int
+	Len     int
+	Idx     Int
+	Overlay bool // non-scalar elements: writes go to the array's overlay
 }
 
 func (e *Exec) storeSymElem(a symElemPtr, v Value) {
 	e.noteWrite(a.Obj, "indexed store")
 	arr := e.loadPath(a.Obj.v, a.Path).(Array)
+	if a.Overlay {
+		if arr.O == nil {
+			arr.O = &overlay{}
+		}
+		idx := iConv(a.Idx, 64, true)
+		if a.Off != 0 {
+			idx = iBin("+", idx, mkI64(int64(a.Off)))
+		}
+		arr.O.w = append(arr.O.w, symWrite{Idx: idx, Val: copyVal(v)})
+		if len(a.Path) == 0 {
+			a.Obj.v = arr
+		} else {
+			e.unsupported("symbolic-index store into an embedded array")
+		}
+		return
+	}
 	for k := 0; k < a.Len; k++ {
 		g := iCmp("==", a.Idx, mkInt(a.Idx.W, a.Idx.Signed, uint64(k)))
 		m, ok := e.merge(g, v, arr.E[a.Off+k])
@@ -1565,6 +1693,33 @@ func (e *Exec) storeSymElem(a symElemPtr, v Value) {
 
 func (e *Exec) loadSymElem(a symElemPtr) Value {
 	arr := e.loadPath(a.Obj.v, a.Path).(Array)
+	if a.Overlay {
+		idx := iConv(a.Idx, 64, true)
+		if a.Off != 0 {
+			idx = iBin("+", idx, mkI64(int64(a.Off)))
+		}
+		if arr.O != nil {
+			for k := len(arr.O.w) - 1; k >= 0; k-- {
+				w := arr.O.w[k]
+				if e.decide(iCmp("==", w.Idx, idx)) {
+					return copyVal(w.Val)
+				}
+			}
+		}
+		// miss: a base element; if they are all the same value the index does not matter
+		same := true
+		for k := 1; k < a.Len; k++ {
+			if !sameBase(arr.E[a.Off], arr.E[a.Off+k]) {
+				same = false
+				break
+			}
+		}
+		if same && a.Len > 0 {
+			return copyVal(arr.E[a.Off])
+		}
+		c := e.concretize(a.Idx, "index of a non-scalar element", 64)
+		return copyVal(arr.E[a.Off+int(c.sval())])
+	}
 	var acc Value
 	for k := a.Len - 1; k >= 0; k-- {
 		v := arr.E[a.Off+k]
@@ -1597,6 +1752,21 @@ func (e *Exec) boundsCheck(idx Int, n int, what string) {
 	e.obligation(in, fmt.Sprintf("index out of range with length %d (%s)", n, what), "panic")
 }
 
+func (e *Exec) noOverlay(a Array) {
+	if a.O != nil {
+		e.unsupported("bulk operation on an array with symbolic-index writes")
+	}
+}
+
+func sameBase(a, b Value) bool {
+	if pa, ok := a.(Ptr); ok {
+		if pb, ok2 := b.(Ptr); ok2 && pa.Obj == nil && pb.Obj == nil {
+			return true
+		}
+	}
+	return sameValue(a, b)
+}
+
 func isScalar(v Value) bool {
 	switch v.(type) {
 	case Int, Bool, Float:
@@ -1613,8 +1783,11 @@ func (e *Exec) indexAddr(fr *Frame, i *ssa.IndexAddr) Value {
 		e.boundsCheck(idx, b.Len, fr.fn.Name())
 		if !idx.IsC {
 			arr := b.Arr.v.(Array)
-			if b.Len > 0 && isScalar(arr.E[b.Off]) && b.Len <= 64 {
+			if b.Len > 0 && isScalar(arr.E[b.Off]) && b.Len <= 64 && arr.O == nil {
 				return symElemPtr{Obj: b.Arr, Off: b.Off, Len: b.Len, Idx: idx}
+			}
+			if _, isPtr := arr.E[b.Off].(Ptr); isPtr {
+				return symElemPtr{Obj: b.Arr, Off: b.Off, Len: b.Len, Idx: idx, Overlay: true}
 			}
 			idx = e.concretize(idx, "slice index", 64)
 		}
@@ -2203,6 +2376,7 @@ func (e *Exec) builtin(fr *Frame, b *ssa.Builtin, c *ssa.CallCommon, args []Valu
 		case Slice:
 			if t.Arr != nil {
 				arr := t.Arr.v.(Array)
+				e.noOverlay(arr)
 				for k := 0; k < t.Len; k++ {
 					add = append(add, copyVal(arr.E[t.Off+k]))
 				}
@@ -2216,6 +2390,7 @@ func (e *Exec) builtin(fr *Frame, b *ssa.Builtin, c *ssa.CallCommon, args []Valu
 		if s.Arr != nil && s.Len+len(add) <= s.Cap {
 			e.noteWrite(s.Arr, "append into spare capacity")
 			arr := s.Arr.v.(Array)
+			e.noOverlay(arr)
 			for k, v := range add {
 				arr.E[s.Off+s.Len+k] = v
 			}
@@ -2233,6 +2408,7 @@ func (e *Exec) builtin(fr *Frame, b *ssa.Builtin, c *ssa.CallCommon, args []Valu
 		el := make([]Value, nc)
 		if s.Arr != nil {
 			old := s.Arr.v.(Array)
+			e.noOverlay(old)
 			for k := 0; k < s.Len; k++ {
 				el[k] = copyVal(old.E[s.Off+k])
 			}
@@ -2243,7 +2419,7 @@ func (e *Exec) builtin(fr *Frame, b *ssa.Builtin, c *ssa.CallCommon, args []Valu
 		for k := n; k < nc; k++ {
 			el[k] = e.zero(et)
 		}
-		return Slice{Arr: e.newObj(Array{el}, "append in "+fr.fn.Name()), Off: 0, Len: n, Cap: nc}
+		return Slice{Arr: e.newObj(Array{E: el}, "append in "+fr.fn.Name()), Off: 0, Len: n, Cap: nc}
 	case "copy":
 		dst := args[0].(Slice)
 		src, ok := args[1].(Slice)
@@ -2258,6 +2434,8 @@ func (e *Exec) builtin(fr *Frame, b *ssa.Builtin, c *ssa.CallCommon, args []Valu
 			e.noteWrite(dst.Arr, "copy")
 			d := dst.Arr.v.(Array)
 			s := src.Arr.v.(Array)
+			e.noOverlay(d)
+			e.noOverlay(s)
 			tmp := make([]Value, n)
 			for k := 0; k < n; k++ {
 				tmp[k] = copyVal(s.E[src.Off+k])
@@ -2434,7 +2612,7 @@ func (e *Exec) newToken() int {
 	e.declare(fmt.Sprintf("tok%d_canon", t), "Bool")
 	e.declare(fmt.Sprintf("tok%d_empty", t), "Bool")
 	e.declare(fmt.Sprintf("tok%d_val", t), sortBV(64))
-	e.declare(fmt.Sprintf("tok%d_id", t), "Int")
+	e.declare(fmt.Sprintf("tok%d_id", t), sortBV(64))
 	// well-formedness: canon/ovf only for ints; empty is not an int; "-0"/"+x"/"0x" are non-canonical
 	e.sol.Send(fmt.Sprintf("(assert (=> tok%d_canon tok%d_isint))", t, t))
 	e.sol.Send(fmt.Sprintf("(assert (=> tok%d_ovf (and tok%d_isint (not tok%d_canon))))", t, t, t))
